@@ -18,7 +18,7 @@ PLAN = {
 STOP_EVERY = {"quick": 30, "thorough": 200}  # in-memory: every n-th task is a stop sweep; Redis/RabbitMQ: all of them
 BUDGET = {"quick": 50, "thorough": 900}
 RULE = (
-    "one or two connections (each with its own in-memory message broker, args and results bucket brokers) alive in the "
+    "one or two connections (each with its own in-memory message broker and results bucket broker, with or without an args bucket broker) alive in the "
     "interpreter, each with a seeded subscriber set: signal name (26), signature = any subset of the operation's argument "
     "names with/without 'result', sync or async, slow (virtual delay) or raising; plus one logging subscriber per signal. "
     "Per connection a full lifecycle: declare, enqueue in positional and keyword call styles (and, in half of the runs, calls "
@@ -66,6 +66,7 @@ def gen(rng, broker, tier):
             jobs.append({"conn": c, "id": f"c{c}j{i}", "kind": rng.choice(["return", "raise", "retry", "eager-ack"]),
                          "style": rng.choice(["job", "positional", "keyword"])})
     return {"nconn": nconn, "subscribers": subs, "jobs": jobs, "minimal": rng.random() < 0.5,
+            "results_only": [rng.random() < 0.3 for _ in range(4)],
             "knobs": {"step_cost": rng.choice([0, 0, 1, "rand"])}}
 
 
@@ -105,7 +106,9 @@ async def _main(sim, sc, out):
 
     conns = []
     for c in range(sc["nconn"]):
-        conn = r.Connection(r.InMemoryMessageBroker(), r.InMemoryBucketBroker(), r.InMemoryBucketBroker(use_result_bucket=True))
+        # a connection may come without an arguments bucket broker (arguments then travel inline)
+        ab = None if sc.get("results_only", [False] * 4)[c] else r.InMemoryBucketBroker()
+        conn = r.Connection(r.InMemoryMessageBroker(), ab, r.InMemoryBucketBroker(use_result_bucket=True))
         conns.append(conn)
     label_of_mw = {id(c.middleware): i for i, c in enumerate(conns)}
     label_of_obj = {}
@@ -260,7 +263,8 @@ async def _main(sim, sc, out):
         for jid, job in jobs_objs.items():
             res = await job.result
             results[jid] = None if res is None else (res.success, res.data, res.exception)
-            await conn._ab.delete_bucket(job.args_id)
+            if conn.args_bucket_broker is not None:
+                await conn._ab.delete_bucket(job.args_id)
         results[f"state{ci}"] = {k: sorted(p["place"] for p in v) for k, v in inspect_mem(conn.message_broker).items()}
         await r.Queue(f"q{ci}", _connection=conn).flush()
         await r.Queue(f"q{ci}", _connection=conn).delete()
